@@ -179,7 +179,8 @@ EvThrew(e) ==
                       If(e.x \in {"runtime_error", "logic_error", "invalid_argument"}, "UndocumentedException")
 , ncx)
 
-EvArm(e) == Res(s, If(cx.armed = 0, "FaultSwallowed"), [cx EXCEPT !.armed = e.k])
+\* a swallowed fault shows as FaultCountMatches at the next Obs (faults thrown by the wrapper vs. Threw lines seen)
+EvArm(e) == Res(s, {}, [cx EXCEPT !.armed = e.k])
 
 \* C06: the operator behaves the same whenever it is probed
 EvOpProbe(e) ==
@@ -280,7 +281,7 @@ EvMPairs(e) ==
         cx)
 
 \* ov: heap blocks whose tail canary was found overwritten when they were freed (alloc_guard.h)
-EvEnd(e) == Res(s, If(cx.armed = 0, "FaultSwallowed") \cup If(s.pc = "idle", "EndedMidCall") \cup If(e.ov = 0, "HeapOverrun"), cx)
+EvEnd(e) == Res(s, If(s.pc = "idle", "EndedMidCall") \cup If(e.ov = 0, "HeapOverrun"), cx)
 EvAbort(e) == Res([s EXCEPT !.pc = "idle"], {Hit("Abort")}, cx)
 
 Dispatch(e) ==
